@@ -114,12 +114,14 @@ def oracle(ctx, st, ob, with_q):
     from props.c12 import inv_diag as _inv_diag
     _spacing = min(1.0 / math.sqrt(g_) for g_ in _inv_diag(G))
 
-    def is_bonded_image(mi, n, k, margin=0.0):
+    def is_bonded_image(mi, n, k, margin=0.0, real_only=False):
         best = None
         hh = True
         kinds = set()
         for i, p in image_atoms(mi, n, k):
             for b in atoms:
+                if real_only and (atoms[i].qpeak or b.qpeak):
+                    continue        # completeness is demanded for images bonded through atoms; a contact with a Q-peak (not an atom) does not make an image a bonded one
                 d = sc.glen(G, [p[0] - b.x, p[1] - b.y, p[2] - b.z])
                 if d > 0.001 and bonded(atoms[i], b, d, margin):      # an atom next to (not on) a symmetry element is bonded to its own image
                     if best is None or d < best:
@@ -143,7 +145,7 @@ def oracle(ctx, st, ob, with_q):
             for k in SH2:
                 if n == 0 and k == (0, 0, 0):
                     continue
-                ok, d = is_bonded_image(mi, n, k, -2.5e-4)
+                ok, d = is_bonded_image(mi, n, k, -2.5e-4, real_only=True)
                 if not ok:
                     continue
                 ev += 1
